@@ -293,7 +293,20 @@ pub mod hash {
 // ===================================================================== the real type
 /// the field is NOT publicised (R3 exception): Verus type invariants need private fields
 pub struct ByteString(Bytes);
-//@check_no_derive file=bytestring/src/lib.rs name=ByteString forbid=Copy
+//@check_no_derive file=bytestring/src/lib.rs name=ByteString forbid=Copy require=Clone,Default
+/// `#[derive(Clone, Default)]` on the real type: field-wise (checked above that both are still derived)
+impl Clone for ByteString {
+    fn clone(&self) -> (r: Self) ensures r@ == self@ {
+        proof { use_type_invariant(self); }
+        ByteString(self.0.clone())
+    }
+}
+impl Default for ByteString {
+    fn default() -> (r: Self) ensures r@.len() == 0 {
+        proof { axiom_utf8_empty(); }
+        ByteString(Bytes::new())
+    }
+}
 
 impl ByteString {
     /// TYPE INVARIANT: every ByteString that exists holds valid UTF-8   [C20].  Verus checks it at every construction
